@@ -713,9 +713,9 @@ pub fn run(mut ctx: Ctx) -> ! {
         ctx.run_tapes("mutate", cases, 1500, |t| case(t, &scratch, 2000, &slow));
         let sizes: &[usize] = match ctx.tier {
             vcommon::ctx::Tier::Quick => &[50, 400, 3000, 13000],
-            vcommon::ctx::Tier::Thorough => &[50, 400, 3000, 13000, 60000],
+            vcommon::ctx::Tier::Thorough => &[50, 400, 3000, 13000, 30000],
         };
-        run_deep(&mut ctx, &scratch, sizes, 120);
+        run_deep(&mut ctx, &scratch, sizes, 400);
         if slow.get() > 0 {
             ctx.set_extra("cases_over_2s", json!(slow.get()));
         }
@@ -732,7 +732,7 @@ pub fn run(mut ctx: Ctx) -> ! {
          message; never a panic, abort or signal. non-trivial = the input got past JSON / TOML syntax into the translation grammar \
          (accepted, or rejected by a translation-level error); distinct = hash of the files",
         &[
-            "a child still running after 120 s is reported as inconclusive (exit 2), never as a violation",
+            "a child still running after 400 s is reported as inconclusive (exit 2), never as a violation (unclosed tags are quadratic: 90 kB take ~30 s)",
             "coverage-guided byte-level fuzzing is the thorough tier's second stage (/verif/fuzz)",
         ],
         50,
